@@ -26,6 +26,7 @@ From AV Require Import Engine.Core Engine.Eval Engine.Validate Engine.Naive.
 From AV Require Import Lattice.LatModel Lattice.LatLaws.
 From AV Require Import LatEngine.LatSyntax LatEngine.LatEval LatEngine.LatPlan LatEngine.LatSem LatEngine.LatBase LatEngine.LatHead.
 From AV Require Import LatEngine.LatKeys LatEngine.LatScc LatEngine.LatMain LatEngine.LatC16 LatEngine.LatVocab LatEngine.LatExample.
+From AV Require Import LatEngine.LatVocabArr LatEngine.LatVocabArrLaws.
 Import ListNotations.
 
 (* exactly one row per key: after any run, no two rows of a lattice relation have the same key - for EVERY program
@@ -130,6 +131,30 @@ Proof. exact shipped_lattices_ok. Qed.
 Theorem c03_lattice_in_universe : forall (T : Type) (le : T -> T -> Prop) jmT, lat_laws le jmT -> lat_laws (sum_le le) (sum_jm jmT).
 Proof. intros T le jmT. exact (sum_lat_laws le jmT). Qed.
 
+(* the composite lattice columns the tie runs (Product over arrays and tuples; Dual / Option / Rc / Box / Reverse around them;
+   LatEngine/LatVocabArr.v): their join_mut in the engine model is C16's Gallina mirror of the shipped code, `jm (denote t)`,
+   on integer codes (lat2_jm), and it satisfies the lattice hypothesis of the theorems above for the order
+   "both codes are in range and the decoded values are elements of the shipped type with dec a <= dec b" *)
+Theorem c03_composite_columns_are_lattices :
+  lat_laws (code_le (T := list Z) (ok_le (denote t_arr2)) dec2 R2) (lat2_jm 9) /\
+  lat_laws (code_le (T := list Z) (ok_le (denote t_arr3)) dec3 R3) (lat2_jm 10) /\
+  lat_laws (code_le (T := list Z) (ok_le (denote t_darr2)) dec2 R2) (lat2_jm 11) /\
+  lat_laws (code_le (T := option (list Z)) (ok_le (denote t_oarr2)) odec RO) (lat2_jm 12) /\
+  lat_laws (code_le (T := list Z) (ok_le (denote t_arrd2)) dec2 R2) (lat2_jm 13) /\
+  lat_laws (code_le (T := Z * (Z * Z)) (ok_le (denote t_prod3)) trip R3) (lat2_jm 14) /\
+  lat_laws (code_le (T := list Z) (ok_le (denote t_rcarr2)) dec2 R2) (lat2_jm 15) /\
+  lat_laws (code_le (T := list Z) (ok_le (denote t_boxarr2)) dec2 R2) (lat2_jm 16) /\
+  lat_laws (code_le (T := list Z) (ok_le (denote t_revarr2)) dec2 R2) (lat2_jm 17).
+Proof.
+  exact (conj arr2_codes_lattice (conj arr3_codes_lattice (conj darr2_codes_lattice (conj oarr2_codes_lattice (conj arrd2_codes_lattice
+        (conj prod3_codes_lattice (conj rcarr2_codes_lattice (conj boxarr2_codes_lattice revarr2_codes_lattice)))))))).
+Qed.
+(* ... a join that has to move both components: [1, 1] v [5, 7] = [5, 7] in Product<[u32; 2]>; [5, 7] v [1, 1] = [1, 1] under Dual (the
+   array's meet_mut); the first component up and the second (a Dual) down in Product<(u32, Dual<u32>, u32)> *)
+Example c03_composite_join_moves_every_component :
+  lat2_jm 9 (1 * 64 + 1) (5 * 64 + 7) = (5 * 64 + 7, true) /\ lat2_jm 11 (5 * 64 + 7) (1 * 64 + 1) = (1 * 64 + 1, true) /\
+  lat2_jm 14 (1 * 4096 + 5 * 64 + 1) (2 * 4096 + 3 * 64 + 0) = (2 * 4096 + 3 * 64 + 1, true).
+Proof. vm_compute. auto. Qed.
 (* non-vacuity: all-pairs shortest path over Dual<u32> with a downstream plain relation, plan dumped from the real
    macro (the lattice is dynamic in two SCCs, the recursive rule is a reorderable simple join): the hypotheses hold *)
 Example c03_example_hypotheses :
@@ -148,3 +173,4 @@ Proof. exact sp_runs. Qed.
 Print Assumptions c03_unique_key. Print Assumptions c03_sound. Print Assumptions c03_closed_at_exit.
 Print Assumptions c03_least_fixed_point. Print Assumptions c03_sound_at_every_iteration. Print Assumptions c03_inputs_raised. Print Assumptions c03_shipped_lattices. Print Assumptions c03_lattice_in_universe.
 Print Assumptions c03_example_hypotheses. Print Assumptions c03_example_runs.
+Print Assumptions c03_composite_columns_are_lattices. Print Assumptions c03_composite_join_moves_every_component.
